@@ -114,7 +114,8 @@ PROPS = {
                    "prefix of the documented grammar (parse_sound_complete, with an unambiguity proof), classifies all 2^32 "
                    "words as specified by case analysis on the top byte (classify_spec), returns the documented fields, leaves "
                    "a literal suffix as remainder, and feeding any list of pieces through the resume protocol equals parsing "
-                   "the concatenation (feedAll_eq_whole); progress and totality included.",
+                   "the concatenation (feedAll_eq_whole); the remainder is a fixed point and entries are monotone under "
+                   "appended bytes (parse_remainder_stable, parse_entries_monotone); progress and totality included.",
         level_note="Trusted: winnow 0.6.1 combinator semantics, transcribed by hand as a second 'Raw' model layer that is "
                    "proved equal to the direct recursive model (parse_total) and tied to the real chronobox_fifo by the "
                    "differential run (all 2- and 3-cuts of short streams, random k-cuts of long ones, top-byte sweep). The "
@@ -225,7 +226,8 @@ PROPS = {
                            "AlphaG.Crc.runBytes_eq_run"],
         harness=[("c03", ["dev", "release"])],
         level_text="Lean theorems over all byte strings: accept iff the documented layout incl. both stored CRC-32C words "
-                   "(chunk_accept_iff), accessors = fields, exact re-encoding (chunk_roundtrip), totality; and the "
+                   "(chunk_accept_iff), accessors = fields, exact re-encoding (chunk_roundtrip) and its converse "
+                   "decodeChunk (encodeChunk c) = ok c for every in-width field tuple (chunk_encode_decode), totality; and the "
                    "error-detection claims for every accepted chunk of any payload length: any odd number of flipped bits "
                    "(detect_odd), any burst of <= 32 contiguous bits at any offset incl. across region boundaries "
                    "(detect_burst32), any two flipped bits (detect_two) — by GF(2)-linearity of the CRC register, the parity "
@@ -258,7 +260,8 @@ PROPS = {
                    "(reassemble_perm_eq) and for every sorted permutation a sort could return (reassemble_sort_irrelevant), "
                    "success equals the direct decode of the payloads concatenated in chunk-id order, each listed fault "
                    "(missing/duplicated id, two boards, two chips, EOM absent on last / present earlier, non-final size) is "
-                   "rejected, and no panic for decoded chunks.",
+                   "rejected, no panic for decoded chunks, and the acceptance condition is exact (reassemble_ok_iff: non-empty, "
+                   "one board, one chip, gap-free ids, EOM on the last chunk only, equal non-final sizes, payloads decode).",
         level_note="Trusted: slice::sort_unstable_by_key returns a sorted permutation (the theorems hold for any such); chunk "
                    "values satisfy the invariant Chunk::try_from establishes (proved for the byte decoder in C03). Tied to "
                    "PwbV2Packet::try_from(Vec<Chunk>) by the differential run over all n! orders (n <= 6) of real CRC-valid "
